@@ -4,7 +4,7 @@ Each statement is printed by Coq itself (Check), so the file repeats every state
 Run from /verif/coq after the development has been compiled:  python3 ../tools/mkprops.py [Cxx ...]"""
 import subprocess, sys, re, os
 
-IMP = "Model Sem InvDb InvSwap InvMint InvMelt Corollaries Queries Footprint HRel Global GlobalQuote GlobalValue GlobalErr GlobalQuery GlobalMelt GlobalKeys Cuts CutOrder Conc Races GlobalBalance GlobalLedger Reconf GlobalPoll Trace Admin AdminProofs CutValue CutMint CutFrames ConcValue CutHistory CutBalance"
+IMP = "Model Sem InvDb InvSwap InvMint InvMelt Corollaries Queries Footprint HRel Global GlobalQuote GlobalValue GlobalErr GlobalQuery GlobalMelt GlobalKeys Cuts CutOrder Conc Races GlobalBalance GlobalLedger Reconf GlobalPoll Trace Admin AdminProofs CutValue CutMint CutFrames ConcValue CutHistory CutBalance CutLedger"
 
 GLOSSARY = """   Reading guide (definitions in coq/Mint/*.v):
      world            = store (tables spent/pending/signatures/mint quotes/melt quotes/keysets) + Lightning environment
@@ -30,7 +30,7 @@ PROPS = {
    'reach_good', 'at_most_once', 'concurrent_at_most_once', 'concurrent_swaps_never_inflate', 'concurrent_swaps_keep_good', 'concurrent_swaps_example', 'locked_or_spent_refused', 'swap_melt_race',
    'swap_rejects_represented', 'swap_rejects_duplicate', 'melt_rejects_represented']),
  'C02': ("No inflation: outstanding ecash plus Lightning outflow never exceeds inflow", [
-   'no_inflation_ledger', 'ledger_history_ok', 'no_inflation', 'no_inflation_reconf', 'no_inflation_ledger_reconf', 'no_inflation_with_cuts', 'swap_cut_no_value_created', 'concurrent_swaps_never_inflate', 'swap_cut_signatures_imply_spent', 'swap_balanced', 'mint_within_quote', 'melt_burns_enough', 'validated_covers',
+   'no_inflation_ledger', 'ledger_history_ok', 'no_inflation', 'no_inflation_reconf', 'no_inflation_ledger_reconf', 'no_inflation_ledger_with_cuts', 'cut_ledger_history_ok', 'no_inflation_with_cuts', 'swap_cut_no_value_created', 'concurrent_swaps_never_inflate', 'swap_cut_signatures_imply_spent', 'swap_balanced', 'mint_within_quote', 'melt_burns_enough', 'validated_covers',
    'melt_fee_limit', 'melt_fee_limit_mpp', 'request_melt_quote_fee', 'melt_amount_must_fit']),
  'C03': ("A mint quote is issued at most once per payment, never before it is paid", [
    'quote_issued_at_most_once_per_payment', 'mint_cut_states', 'internal_credits_are_melts', 'step_qinv', 'mint_needs_payment', 'mint_within_quote', 'mint_once',
@@ -45,7 +45,7 @@ PROPS = {
    'hrun_inv', 'hrun_ext', 'reconf_inv', 'reconf_ext', 'only_op', 'cut_keeps_keysets', 'cut_keeps_quotes', 'cut_signs_only_when_issuing',
    'keysets_never_lost', 'quotes_never_altered', 'spent_stays_refused', 'stored_signature_stays_restorable',
    'request_run_never_panics', 'step_log_step', 'step_crash_log_step', 'swap_cut_signatures_imply_spent', 'swap_ordered', 'mint_ordered', 'melt_ordered',
-   'swap_cut_states', 'swap_cut_no_value_created', 'mint_cut_states', 'no_inflation_with_cuts', 'cut_history_ok', 'balance_never_negative_with_cuts',
+   'swap_cut_states', 'swap_cut_no_value_created', 'mint_cut_states', 'no_inflation_ledger_with_cuts', 'no_inflation_with_cuts', 'cut_history_ok', 'balance_never_negative_with_cuts',
    'crash_in_settle_inflates', 'crash_in_swap_strands', 'crash_in_mint_strands', 'crash_in_rotate_bricks']),
  'C09': ("Keyset lifecycle: deterministic keys, one active keyset, old ecash stays valid", [
    'one_active_keyset', 'keysets_never_lost', 'reconf_keeps_keysets', 'arun_as_history', 'admin_rotate_is_rotate', 'admin_rotate_bad_fee', 'admin_readonly', 'cut_keeps_keysets', 'rotate_spec', 'rotate_fee_must_fit', 'load_spec',
